@@ -114,6 +114,7 @@ CONTROLS = {
         ("closing vertex stripped for open end types too", O, "\tfor (Path64& p: paths_in)\n\t  StripDuplicates(p, is_joined);", "\tfor (Path64& p: paths_in)\n\t  StripDuplicates(p, true);", "GROUP.strip-closed"),
     ],
     "C08": [
+        ("the corner walk does not advance through start_locs_", R, "          AddCorner(prev, HeadingClockwise(prev, loc2));\n          prev = loc2;", "          AddCorner(prev, HeadingClockwise(prev, loc2));", "CORNER.chain"),
         ("a closing vertex on the boundary always starts the scan on its side", R, "      if (prev == Location::Inside) loc = Location::Inside;\n    }\n    Location starting_loc = loc;", "    }\n    Location starting_loc = loc;", "START.location"),
         ('from the Top region the left side is tried wherever p is', 'CPP/Clipper2Lib/src/clipper.rectclip.cpp', '      else if ((p.x < rectPath[0].x) && GetSegmentIntersection(p, p2, rectPath[0], rectPath[3], ip))', '      else if (GetSegmentIntersection(p, p2, rectPath[0], rectPath[3], ip))', 'T.nearest-crossing'),
         ('between test of the second end point only accepts ascending sides', 'CPP/Clipper2Lib/src/clipper.rectclip.cpp', '      else if (IsHorizontal(p3, p4)) return ((p2.x > p3.x) == (p2.x < p4.x));', '      else if (IsHorizontal(p3, p4)) return ((p2.x > p3.x) && (p2.x < p4.x));', 'T.touching'),
@@ -136,6 +137,7 @@ CONTROLS = {
         ("results_ not cleared per polyline", R, "          result.emplace_back(std::move(tmp));\n      }\n      results_.clear();\n\n      op_container_ = std::deque<OutPt2>();", "          result.emplace_back(std::move(tmp));\n      }\n\n      op_container_ = std::deque<OutPt2>();", "CLEAN"),
     ],
     "C10": [
+        ("CreateCPolyTree64 gives up after allocating", H + "clipper.export.h", "  int64_t* result = new int64_t[array_len];\n  int64_t* v = result;", "  int64_t* result = new int64_t[array_len];\n  if (array_len < 2) return nullptr;\n  int64_t* v = result;", "ALLOC.owned"),
         ('GetPrior scans down to and including its lower bound', 'CPP/Clipper2Lib/include/clipper2/clipper.h', '    while (current > 0 && flags[current]) --current;\n    if (!flags[current]) return current;', '    while (current >= high - high && flags[current]) --current;\n    if (!flags[current]) return current;', 'GUARD.unsigned-decrement'),
         ('transform destination sized by the other operand', 'CPP/Clipper2Lib/include/clipper2/clipper.minkowski.h', '          Path64 path2(pattern.size());\n          std::transform(pattern.cbegin(), pattern.cend(),\n            path2.begin(), [p](const Point64& pt2) {return p + pt2; });', '          Path64 path2(path.size());\n          std::transform(pattern.cbegin(), pattern.cend(),\n            path2.begin(), [p](const Point64& pt2) {return p + pt2; });', 'DEST.sized'),
         ("BuildTreeD walks outrec_list_ with a range-for while CheckBounds can append to it", E, "    // BuildPathD below can indirectly add additional OutRec //#607\n    for (size_t i = 0; i < outrec_list_.size(); ++i)\n    {\n      OutRec* outrec = outrec_list_[i];",
@@ -152,6 +154,7 @@ CONTROLS = {
         ("DisposeOutPt deletes before unlinking", E, "    op->prev->next = op->next;\n    op->next->prev = op->prev;\n    delete op;", "    delete op;\n    op->prev->next = op->next;\n    op->next->prev = op->prev;", "LINK.consistent-at-throw"),
     ],
     "C11": [
+        ("ScalePaths computes the bounds only for more than one path", H + "clipper.core.h", "      RectD r = GetBounds<double, T2>(paths);", "      RectD r = (paths.size() > 1) ? GetBounds<double, T2>(paths) : RectD();", "R7.range-table"),
         ("BuildPathsD appends to the caller's closed solution", E, "  void ClipperD::BuildPathsD(PathsD& solutionClosed, PathsD* solutionOpen)\n  {\n    solutionClosed.resize(0);", "  void ClipperD::BuildPathsD(PathsD& solutionClosed, PathsD* solutionOpen)\n  {", "OUTPUT.reset"),
         ('tree overload empties its output only after the precision check', 'CPP/Clipper2Lib/include/clipper2/clipper.h', '    polytree.Clear();\n    int error_code = 0;\n    CheckPrecisionRange(precision, error_code);\n    if (error_code) return;\n    ClipperD clipper(precision);', '    int error_code = 0;\n    CheckPrecisionRange(precision, error_code);\n    if (error_code) return;\n    polytree.Clear();\n    ClipperD clipper(precision);', 'R2.error-consumed'),
         ('RectClip(PathsD) validates through the overload that drops the error', 'CPP/Clipper2Lib/include/clipper2/clipper.h', '    CheckPrecisionRange(precision, error_code);\n    if (error_code) return PathsD();\n    const double scale = std::pow(10, precision);\n    Rect64 r = ScaleRect<int64_t, double>(rect, scale);\n    RectClip64 rc(r);', '    CheckPrecisionRange(precision);\n    if (error_code) return PathsD();\n    const double scale = std::pow(10, precision);\n    Rect64 r = ScaleRect<int64_t, double>(rect, scale);\n    RectClip64 rc(r);', 'R2.error-consumed'),
@@ -202,6 +205,7 @@ CONTROLS = {
          "\treturn Point64(pt.x + norm.x * delta + (pt.z ? 1 : 0), pt.y + norm.y * delta, pt.z);", "ZERASE"),
     ],
     "C16": [
+        ("ScalePaths returns nothing for one particular scale", H + "clipper.core.h", "    result.reserve(paths.size());\n    std::transform(paths.begin(), paths.end(), back_inserter(result),\n      [=, &error_code](const auto& path)", "    if (scale_x == scale_y && scale_x == 0.5) return result;\n    result.reserve(paths.size());\n    std::transform(paths.begin(), paths.end(), back_inserter(result),\n      [=, &error_code](const auto& path)", "SCALE.total"),
         ('TrimCollinear(PathD) ignores the precision it was given', 'CPP/Clipper2Lib/include/clipper2/clipper.h', '    if (error_code) return PathD();\n    const double scale = std::pow(10, precision);\n    Path64 p = ScalePath<int64_t, double>(path, scale, error_code);', '    if (error_code) return PathD();\n    const double scale = std::pow(10, 2);\n    Path64 p = ScalePath<int64_t, double>(path, scale, error_code);', 'PRECISION.forwarded'),
         ("TrimCollinear(PathD) hands short paths back without the round trip", H + "clipper.h", "    if (error_code) return PathD();\n    const double scale = std::pow(10, precision);\n    Path64 p = ScalePath<int64_t, double>(path, scale, error_code);", "    if (error_code) return PathD();\n    if (path.size() < 3) return path;\n    const double scale = std::pow(10, precision);\n    Path64 p = ScalePath<int64_t, double>(path, scale, error_code);", "SCALE.wrapper"),
         ("delta not scaled in InflatePaths(PathsD)", H + "clipper.h", "    clip_offset.Execute(delta * scale, solution);\n    return ScalePaths<double, int64_t>(solution, 1 / scale, error_code);",
@@ -210,6 +214,7 @@ CONTROLS = {
          "    if (path.size() == 3 && IsVerySmallTriangle(*op2)) return false;\n    return true;", "SIBLING.64-D"),
     ],
     "C17": [
+        ("RectClipLines64 export runs the polygon clipper", H + "clipper.export.h", "  class RectClipLines64 rcl (r);", "  class RectClip64 rcl (r);", "FORWARD.native"),
         ('InflatePathsD adds every path as a group of its own', 'CPP/Clipper2Lib/include/clipper2/clipper.export.h', '  Paths64 pp = ConvertCPathsDToPaths64(paths, scale);\n  clip_offset.AddPaths(pp, JoinType(jointype), EndType(endtype));', '  Paths64 pp = ConvertCPathsDToPaths64(paths, scale);\n  for (const Path64& p1 : pp) clip_offset.AddPath(p1, JoinType(jointype), EndType(endtype));', 'FORWARD.param'),
         ('BooleanOp64 adds the subject only when there are clips', 'CPP/Clipper2Lib/include/clipper2/clipper.export.h', '  if (sub.size() > 0) clipper.AddSubject(sub);\n  if (sub_open.size() > 0) clipper.AddOpenSubject(sub_open);\n  if (clp.size() > 0) clipper.AddClip(clp);\n  if (!clipper.Execute(ClipType(cliptype), FillRule(fillrule), sol, sol_open))\n    return -1; // clipping bug - should never happen :)', '  if (sub.size() > 0 && clp.size() > 0) clipper.AddSubject(sub);\n  if (sub_open.size() > 0) clipper.AddOpenSubject(sub_open);\n  if (clp.size() > 0) clipper.AddClip(clp);\n  if (!clipper.Execute(ClipType(cliptype), FillRule(fillrule), sol, sol_open))\n    return -1; // clipping bug - should never happen :)', 'FORWARD.param'),
         ("tree serialiser takes the write cursor by value", H + "clipper.export.h", "static void CreateCPolyPathD(const PolyPathD* pp, double*& v)", "static void CreateCPolyPathD(const PolyPathD* pp, double* v)", "LAYOUT.cursor"),
@@ -238,6 +243,7 @@ CONTROLS = {
         ("partial sum can wrap", H + "clipper.core.h", "    const uint64_t x2 = hi(a) * lo(b) + hi(x1);", "    const uint64_t x2 = hi(a) * lo(b) + x1;", "P.multiply-no-wrap"),
     ],
     "C20": [
+        ("Distance squares the coordinate differences in the coordinate type", H + "clipper.h", "    return std::sqrt(DistanceSqr(pt1, pt2));", "    return std::sqrt(static_cast<double>((pt1.x - pt2.x) * (pt1.x - pt2.x) + (pt1.y - pt2.y) * (pt1.y - pt2.y)));", "INT64.product"),
         ("StripDuplicates removes a single trailing duplicate", H + "clipper.core.h", "      while (path.size() > 1 && path.back() == path.front()) path.pop_back();", "      if (path.size() > 1 && path.back() == path.front()) path.pop_back();", "TAIL.loop"),
         ('left half of RDP examined only from two interior vertices on', 'CPP/Clipper2Lib/include/clipper2/clipper.h', '    if (idx > begin + 1) RDP(path, begin, idx, epsSqrd, flags);', '    if (idx > begin + 2) RDP(path, begin, idx, epsSqrd, flags);', 'RDP.spans'),
         ('maxima of GetBounds(Paths) start at the smallest positive value', 'CPP/Clipper2Lib/include/clipper2/clipper.core.h', '    T xmax = std::numeric_limits<T>::lowest();\n    T ymax = std::numeric_limits<T>::lowest();\n    for (const Path<T>& path : paths)', '    T xmax = (std::numeric_limits<T>::min)();\n    T ymax = (std::numeric_limits<T>::min)();\n    for (const Path<T>& path : paths)', 'BOUNDS.minmax'),
